@@ -322,9 +322,30 @@ def ising_XX(
 
     indices = calculate_indices_for_ising_XX(d, cutoff, modes)
 
+    size = len(state._state_vector)
+
     for index in indices:
-        initial = state._state_vector[index]
-        final = cos_phi * initial + i_sin_phi * np.flip(initial)
-        state._state_vector = connector.assign(state._state_vector, index, final)
+        if index[3] >= size:
+            # NOTE: The basis state with both modes occupied is over the cutoff. The
+            # singly occupied ones contain the same number of particles.
+            if index[2] < size:
+                _apply_ising_XX_rotation(state, index[1:3], cos_phi, i_sin_phi)
+
+            state._state_vector = connector.assign(
+                state._state_vector, index[0], cos_phi * state._state_vector[index[0]]
+            )
+
+            continue
+
+        _apply_ising_XX_rotation(state, index, cos_phi, i_sin_phi)
 
     return [Branch(state=state)]
+
+
+def _apply_ising_XX_rotation(state, index, cos_phi, i_sin_phi):
+    connector = state._connector
+    np = connector.np
+
+    initial = state._state_vector[index]
+    final = cos_phi * initial + i_sin_phi * np.flip(initial)
+    state._state_vector = connector.assign(state._state_vector, index, final)
